@@ -103,6 +103,37 @@ func (r *rng) varyDelivery(evs []event) []event {
 	return out
 }
 
+// sparsify drops object members (key and value) at every depth with probability 1/3; the
+// announced lengths of all objects become "unknown"
+func (r *rng) sparsify(evs []event) []event {
+	var out []event
+	for i := 0; i < len(evs); i++ {
+		e := evs[i]
+		if (e.kind == evKey || e.kind == evKeyRef) && r.chance(1, 3) && i+1 < len(evs) {
+			// find the end of the member's value
+			d, j := 0, i+1
+			for ; j < len(evs); j++ {
+				switch evs[j].kind {
+				case evObjStart, evArrStart:
+					d++
+				case evObjEnd, evArrEnd:
+					d--
+				}
+				if d == 0 {
+					break
+				}
+			}
+			i = j
+			continue
+		}
+		if e.kind == evObjStart {
+			e.n = -1
+		}
+		out = append(out, e)
+	}
+	return out
+}
+
 // a copy of t where struct types get an extra member now and then is approximated by
 // folding a value of an independent type: the interesting mismatches come from there
 func (r *rng) unfoldStream(t reflect.Type) []event {
@@ -119,6 +150,11 @@ func (r *rng) unfoldStream(t reflect.Type) []event {
 	switch r.n(10) {
 	case 0, 1, 2, 3, 4, 5:
 		if t.Kind() != reflect.Interface {
+			if r.chance(1, 4) {
+				// a sparse document: members dropped at every depth (what the stream does not
+				// mention stays as it is - also in a reused element, map member or scratch value)
+				return r.sparsify(fold(t))
+			}
 			return fold(t)
 		}
 		return fold(r.dynType(2))
